@@ -8,7 +8,7 @@ WT=/tmp/seedrun-$LANE; VC=/var/tmp/lpverif/verif-seedrun-$LANE
 git -C $WT checkout -q --detach $(git -C /repo rev-parse HEAD); git -C $WT checkout -q -- . ; git -C $WT clean -fdq
 mkdir -p $VC; rsync -a --delete --exclude .git --exclude replays /verif/ $VC/
 P=/verif/seeded/$KEY/patch.diff; [ -f /verif/seeded/$KEY/patch.ported.diff ] && P=/verif/seeded/$KEY/patch.ported.diff
-git -C $WT apply $P || { echo "$KEY $ID PATCH-DOES-NOT-APPLY"; exit 0; }
+if [ "$KEY" != "HEAD" ]; then git -C $WT apply $P || { echo "$KEY $ID PATCH-DOES-NOT-APPLY"; exit 0; }; fi
 (cd $VC && VERIF_REPO=$WT ./check $ID --tier $TIER 2>&1 | grep -v conda | grep -v '^KNOWN-FINDING') > /var/tmp/lpverif/seedrun-$LANE.last.log
 OUT=$(tail -2 /var/tmp/lpverif/seedrun-$LANE.last.log | tr '\n' ' ' | cut -c1-330)
 case "$OUT" in *Error*) cp /var/tmp/lpverif/seedrun-$LANE.last.log /var/tmp/lpverif/seedrun-error-$KEY-$ID.log;; esac
